@@ -53,6 +53,16 @@ Theorem C24_creation_sites_guarded : forallb (sites_ok creation_sites) all_kinds
 Proof. exact creation_all. Qed.
 Print Assumptions C24_creation_sites_guarded.
 
+(* whose permissions are checked: with the client_id principal source (with or without PROXY
+   protocol) the principal of a request is a function of THAT request's header only -- two
+   requests on one connection are authorised independently; with an address source it is a
+   function of the connection only *)
+Theorem C24_principal_client_id_request_only : forall is_blank trim h h' cid,
+  is_blank [] = true ->
+  resolve_principal is_blank trim SrcClientId h cid = resolve_principal is_blank trim SrcClientId h' cid.
+Proof. exact resolve_client_id_request_only. Qed.
+Print Assumptions C24_principal_client_id_request_only.
+
 (* the guard order the model relies on is the one in the source, case by case
    (gen/DispatchTable.v is regenerated from cmd/broker/main.go on every run; the
    per-case lemmas dispatch_<Kind> in proofs/DispatchProofs.v name the case that breaks) *)
